@@ -20,6 +20,16 @@ sys.path.insert(0, os.path.dirname(os.path.abspath(__file__)))
 from lib import common  # noqa
 
 
+_KEYS = ["tie_primaryKey", "tie_tagKey", "tie_fullKey", "tie_convKeys", "tie_primary_first"]
+_SCAN = ["tie_scanIndex", "tie_scanMatches", "tie_badKey", "tie_walk_id", "tie_scanRange"]
+# which tie theorems a property's theorems rest on
+TRANSLATED = {
+    "C01": _KEYS + _SCAN, "C02": _KEYS + _SCAN, "C11": _KEYS + _SCAN, "C12": _KEYS + _SCAN,
+    "C10": _KEYS + ["tie_maxKey"], "C08": _KEYS + _SCAN, "C09": _KEYS + _SCAN, "C17": _KEYS,
+    "C06": _KEYS + ["tie_maxKey", "tie_encodeRow"], "C07": _KEYS, "C04": ["tie_encodeRow"],
+}
+
+
 def main():
     ap = argparse.ArgumentParser()
     ap.add_argument("prop")
@@ -35,6 +45,20 @@ def main():
         proof_cov = common.proof_obligations(prop, args.tier)
         mod = importlib.import_module("props.%s" % prop.lower())
         report = common.Report(prop, args.tier, seed)
+        if prop in TRANSLATED:
+            # the second tie: kv.py's key / record layout is translated from the current source and Lean checks that the
+            # model is exactly that (DESIGN.md §3.5); a failure is a proof obligation broken by the code
+            from lib import translate
+            tr = translate.run(common.REPO, common.LEAN)
+            report.coverage["translation_tie"] = {
+                "source": "nostr_relay/storage/kv.py", "status": tr["status"], "theorems": tr["theorems"],
+                "failed": tr["failed"], "unavailable": tr["unavailable"], "definitions": tr["definitions"]}
+            mine = [n for n in tr["failed_names"] if n in TRANSLATED[prop] or not n.startswith("tie_")]
+            if mine:
+                report.correspondence_break(
+                    "translator: the layout definitions regenerated from kv.py no longer equal the model's (tie theorem(s) %s fail)"
+                    % ", ".join(mine), {"kind": "translation", "failed": tr["failed"]},
+                    {k: v for k, v in tr["definitions"].items()}, "NostrRelay/Model/KV.lean, Model/MsgPack.lean")
         if args.replay:
             mod.replay(report, args.replay)
         else:
